@@ -58,6 +58,10 @@ def check(rep):
             break
     if ex and not seen:
         rep.inconc(f"resolve: exception path did not reproduce: {ex[0]['witness']}")
+    # the id. pin-cite test on text (arbitrary characters): must not raise
+    from vf.harness import pinlemma
+
+    pinlemma.fold(rep, "C04")
     # annotate
     for name, params in (("annotate_plain", {"M": 2, "K": 0, "quick": True, "modes": ["unchecked", "wrap"]}), ("annotate_source", {"M": 2, "K": 3, "quick": True, "modes": ["unchecked"]}), ("annotate_skip", {"M": 1, "K": 0, "quick": True, "modes": ["skip"]})):
         agg = common.explore_split("vf.harness.c09", params, depth=4)
@@ -112,6 +116,10 @@ def replay_file(path):
 
     r = json.load(open(path))["replay"]
     print("see the owning harness for replay of", r.get("kind"))
+    if r.get("kind") == "pin":
+        from vf.harness import pinlemma
+
+        return pinlemma.replay(r)
     if r.get("kind") == "text":
         from vf.harness import c02
 
